@@ -33,14 +33,15 @@ FUNCTIONS = [
 ]
 ASSUMPTIONS = [
     'value / buffer length <= the stated bound',
-    'mailbox-name code points in 0x20..0x7e (the modified-UTF-7 shift segments call the C utf-7 codec, '
-    'which is not modelled; non-ASCII names are outside this check)',
+    'mailbox names: any code points except lone surrogates, length <= 2 (quick) / 3 (thorough); printable ASCII up to 4 / 6; '
+    'names whose upper-case form is INBOX only through non-ASCII case mapping are outside (ASCII case model)',
     'sequence-set numbers < 10^4 (decimal rendering forks on the digit count; larger numbers are outside)',
 ]
-STUBS = ['the continuation loop of IMAPConnection.read_command is replayed by the harness: on '
+STUBS = ['UTF-7 / UTF-16-BE / base64: exact models (pysymex.codecs7), validated by pysymex.difftest',
+         'the continuation loop of IMAPConnection.read_command is replayed by the harness: on '
          'ParsingInterrupt the announced literal_length bytes plus the rest of the line are appended '
          'to ParsingState.continuations and parsing restarts (same as read_command/_interrupt)']
-OUTSIDE = ['date-time (strptime/strftime)', 'non-ASCII mailbox names and case mapping outside ASCII',
+OUTSIDE = ['date-time (strptime/strftime)', 'case mapping outside ASCII',
            'end-to-end command effects (only parsed command objects are compared)']
 
 _g: dict = {}
@@ -198,13 +199,16 @@ def _h_cmdcase():
     return fn
 
 
-def _h_mailbox(n):
+def _h_mailbox(n, ascii_only=True, hi=0x10FFFF):
     def fn(eng):
         from pysymex import fresh_str, B, AND, Outcome
-        s = fresh_str(eng, 's', n, hi=0x7e)
+        s = fresh_str(eng, 's', n, hi=(0x7e if ascii_only else hi))
         for c in s.items:
-            eng.add(c.t >= 0x20)
-        wit = lambda m: {'name': s.eval(m)}  # noqa: E731
+            if ascii_only:
+                eng.add(c.t >= 0x20)
+            else:
+                eng.add((c.t < 0xD800) | (c.t > 0xDFFF))
+        wit = lambda m: {'name': s.concrete(m)}  # noqa: E731
         mbx = _g['Mailbox'](s)
         raw = mbx.__bytes__()
         obj, rest = _g['Mailbox'].parse(_mv(raw), _g['Params']())
@@ -298,8 +302,16 @@ def harnesses(tier):
     hs.append(Harness('command_case', _h_cmdcase(), {'word': 'SELECT, 2^6 case patterns as 6 symbolic bits'},
                       replay='cmdcase'))
     for n in range(0, (4 if q else 6) + 1):
-        hs.append(Harness('mailbox_roundtrip[len=%d]' % n, _h_mailbox(n), {'name_len': n},
+        hs.append(Harness('mailbox_roundtrip_ascii[len=%d]' % n, _h_mailbox(n), {'name_len': n, 'code_points': '0x20..0x7e'},
                           replay='mailbox'))
+    for n in range(0, 2):
+        hs.append(Harness('mailbox_roundtrip_unicode[len=%d]' % n, _h_mailbox(n, False),
+                          {'name_len': n, 'code_points': 'U+0000..U+10FFFF except surrogates'}, replay='mailbox',
+                          timeout_ms=120000))
+    for n in ([] if q else [2]):
+        hs.append(Harness('mailbox_roundtrip_bmp[len=%d]' % n, _h_mailbox(n, False, 0xFFFF),
+                          {'name_len': n, 'code_points': 'U+0000..U+FFFF except surrogates'}, replay='mailbox',
+                          timeout_ms=120000))
     shapes = [('n',), ('r',), ('s',), ('rs',), ('sr',), ('n', 'r'), ('r', 'n')]
     if not q:
         shapes += [('n', 'n', 'n'), ('r', 'r'), ('rs', 'n'), ('n', 's'), ('r', 'n', 'r')]
@@ -367,7 +379,7 @@ def replay(harness, w):
     elif harness == 'mailbox':
         from pymap.parsing.specials import Mailbox
         from pymap.parsing.modutf7 import modutf7_encode, modutf7_decode
-        s = w['name']
+        s = w['name'] if isinstance(w['name'], str) else ''.join(chr(c) for c in w['name'])
         raw = bytes(Mailbox(s))
         obj, rest = Mailbox.parse(memoryview(raw), Params())
         if len(rest) or obj.value != Mailbox(s).value:
